@@ -161,6 +161,11 @@ def arg_precedence(ctx):
         t = src(u)
         ctx.check("startswith('cache_')" in t and "!= 'cache_key'" in t and "[6:]" in t, "filter:%s" % ("page" if u is ups[0] else "own"), db.where(u), "cache_* attribute selection changed: %s" % t, "cache_* minus cache_key, prefix stripped")
     to = [n for n in walk_func(wc) if isinstance(n, ast.Assign) and src(n.targets[0]) == "%s['timeout']" % cav]
+    if to:
+        from ..engine.facts import ancestors as _anc
+        gd = [a_ for a_ in _anc(to[0]) if isinstance(a_, ast.If)]
+        ctx.check(bool(gd) and P.matches(gd[0].test, "'timeout' in %s" % cav) and to[0].lineno > max([f_[0] for f_ in feeds] or [0]), "timeout-int.merged", db.where(to[0]),
+                  "the int() conversion of timeout is guarded by `%s`, not by the merged arguments holding a timeout: a timeout inherited from <%%page> reaches the backend as a string" % (src(gd[0].test) if gd else "nothing"), "converted whenever the merged arguments hold a timeout, after both sources were merged")
     ctx.check(bool(to) and isinstance(to[0].value, ast.Call) and dotted(to[0].value.func) == "int", "timeout-int", db.where(to[0]) if to else db.where(wc), "timeout is not converted with int()", "timeout -> int")
     gk = db.func("cache.Cache._get_cache_kw")
     seqs = []
